@@ -136,7 +136,8 @@ Inductive hook_args :=
 | APostRewrite (is_rebase is_amend : bool) (pairs : list (sha * sha))
 | APostCheckout (old new : sha)
 | APostMerge (squash : bool)
-| ARefTx (ph : phase) (stash_upd head_upd : option (sha * sha)) (touches_head_or_branch : bool).
+| ARefTx (ph : phase) (stash_upd head_upd : option (sha * sha)) (touches_head touches_branch : bool).
+    (* touches_head: the transaction has a line for HEAD; touches_branch: a line for some refs/heads/... *)
 
 Record henv := mkEnv {
   e_ra : reflog_action;
@@ -180,6 +181,11 @@ Definition maskable (n : hook_name) : bool := is_managed n && negb (is_terminal 
 
 Definition cp_in_progress (e : henv) : bool := (match e_cph e with Some _ => true | None => false end) || e_seq e.
 
+(* the reference names that make hook_requires_managed_repo_lookup do the repository lookup for a
+   reference-transaction (GenModes reads the filter from the source) *)
+Definition relevant_refs (touches_head touches_branch : bool) : bool :=
+  (reftx_lookup_on_HEAD && touches_head) || (reftx_lookup_on_refs_heads && touches_branch).
+
 (* hook_requires_managed_repo_lookup *)
 Definition requires_lookup (rewrite_stash : bool) (fi : firing) : bool :=
   let e := h_env fi in
@@ -188,12 +194,12 @@ Definition requires_lookup (rewrite_stash : bool) (fi : firing) : bool :=
   | HN_prepare_commit_msg => negb (e_rb e) && (match e_cph e with Some _ => true | None => false end)
   | HN_reference_transaction =>
       match h_args fi with
-      | ARefTx ph st _ touches =>
+      | ARefTx ph st _ th tb =>
           if (match st with Some _ => true | None => false end) && rewrite_stash then true
           else match ph with
                | Committed =>
                    if ra_set (e_ra e) then ra_reset (e_ra e)
-                   else if e_rb e || cp_in_progress e then false else touches
+                   else if e_rb e || cp_in_progress e then false else relevant_refs th tb
                | _ => false
                end
       | _ => false
@@ -440,7 +446,7 @@ Definition dispatch (rewrite_stash : bool) (st : side_state) (fi : firing) : lis
       end
   | HN_reference_transaction =>
       match h_args fi with
-      | ARefTx ph stash_upd head_upd _ =>
+      | ARefTx ph stash_upd head_upd _ _ =>
           let '(ev1, st1) := stash_reftx rewrite_stash st ph stash_upd e in
           (ev1 ++ reset_reftx ph head_upd e, st1)
       | _ => ([], st)
@@ -549,7 +555,8 @@ Record outcome_facts := mkFacts {
   (* what the core would find *)
   f_wl_pending : bool;            (* a working-log directory exists for the HEAD the command starts from *)
   f_uncheckpointed : bool;        (* the work tree differs from what the newest checkpoint recorded *)
-  f_path_pending : bool           (* the working log holds attribution for the checked-out path *)
+  f_path_pending : bool;          (* the working log holds attribution for the checked-out path *)
+  f_detached : bool               (* HEAD is detached when the command starts: a move of HEAD updates no refs/heads/... *)
 }.
 
 (* core operations that are no-ops in the given repository: rename_working_log of a missing directory or
@@ -780,8 +787,8 @@ Definition fires_commit (amend : bool) (f : outcome_facts) : list firing :=
   (if f_exit_ok f then
      [mkFiring HN_prepare_commit_msg ANone before;
       mkFiring HN_commit_msg ANone before;
-      mkFiring HN_reference_transaction (ARefTx Prepared None (head_update f) true) before;
-      mkFiring HN_reference_transaction (ARefTx Committed None (head_update f) true) after;
+      mkFiring HN_reference_transaction (ARefTx Prepared None (head_update f) true (negb (f_detached f))) before;
+      mkFiring HN_reference_transaction (ARefTx Committed None (head_update f) true (negb (f_detached f))) after;
       mkFiring HN_post_commit ANone after] ++
      (if amend then [mkFiring HN_post_rewrite (APostRewrite false true [(zero_or (f_head f), zero_or (f_head_after f))]) after]
       else [])
@@ -820,15 +827,15 @@ Definition fires_cherry_pick (f : outcome_facts) : list firing :=
     (if m_cph m then [] else [mkFiring HN_pre_commit ANone during]) ++
     [mkFiring HN_prepare_commit_msg ANone during] ++
     (if m_cph m then [] else [mkFiring HN_commit_msg ANone during]) ++     (* a resolved pick goes through git commit *)
-    [mkFiring HN_reference_transaction (ARefTx Committed None (Some (m_parent m, m_new m)) true) during;
+    [mkFiring HN_reference_transaction (ARefTx Committed None (Some (m_parent m, m_new m)) true (negb (f_detached f))) during;
      mkFiring HN_post_commit ANone after]) (f_made f).
 
 Definition fires_reset (f : outcome_facts) : list firing :=
   if negb (f_exit_ok f) then []
   else
     let e := with_reset (with_refs (env0 f) (f_head_after f) None (f_head f) false) true (f_dirty_after f) (f_backward f) in
-    [mkFiring HN_reference_transaction (ARefTx Prepared None (head_update f) true) e;
-     mkFiring HN_reference_transaction (ARefTx Committed None (head_update f) true) e].
+    [mkFiring HN_reference_transaction (ARefTx Prepared None (head_update f) true (negb (f_detached f))) e;
+     mkFiring HN_reference_transaction (ARefTx Committed None (head_update f) true (negb (f_detached f))) e].
 
 Definition fires_stash (sub : stash_sub) (f : outcome_facts) : list firing :=
   if negb (f_exit_ok f) then []
@@ -838,8 +845,8 @@ Definition fires_stash (sub : stash_sub) (f : outcome_facts) : list firing :=
       | None => []
       | Some n =>
           let upd := Some (zero_or (f_stash_top f), n) in
-          [mkFiring HN_reference_transaction (ARefTx Prepared upd None false) (with_stash (env0 f) (f_stash_before f) false);
-           mkFiring HN_reference_transaction (ARefTx Committed upd None false) (with_stash (env0 f) (f_stash_after f) false)]
+          [mkFiring HN_reference_transaction (ARefTx Prepared upd None false false) (with_stash (env0 f) (f_stash_before f) false);
+           mkFiring HN_reference_transaction (ARefTx Committed upd None false false) (with_stash (env0 f) (f_stash_after f) false)]
       end
   | SubApply => []
   | SubPop | SubDrop =>
@@ -849,8 +856,8 @@ Definition fires_stash (sub : stash_sub) (f : outcome_facts) : list firing :=
            | None => []
            | Some o =>
                let upd := Some (o, 0) in
-               [mkFiring HN_reference_transaction (ARefTx Prepared upd None false) (with_stash (env0 f) (f_stash_before f) (f_dirty_after f));
-                mkFiring HN_reference_transaction (ARefTx Committed upd None false) (with_stash (env0 f) (f_stash_after f) (f_dirty_after f))]
+               [mkFiring HN_reference_transaction (ARefTx Prepared upd None false false) (with_stash (env0 f) (f_stash_before f) (f_dirty_after f));
+                mkFiring HN_reference_transaction (ARefTx Committed upd None false false) (with_stash (env0 f) (f_stash_after f) (f_dirty_after f))]
            end
   end.
 
@@ -865,7 +872,7 @@ Definition fires_checkout (pathspec : bool) (f : outcome_facts) : list firing :=
   else
     let e := with_refs (env0 f) (f_head_after f) None (f_head f) false in
     (* creating a branch updates refs/heads/<new>; moving the symbolic HEAD fires nothing in git 2.39 *)
-    (if pathspec then [] else [mkFiring HN_reference_transaction (ARefTx Committed None None true) e]) ++
+    (if pathspec then [] else [mkFiring HN_reference_transaction (ARefTx Committed None None false true) e]) ++
     [mkFiring HN_post_checkout (APostCheckout (zero_or (f_head f)) (zero_or (f_head_after f))) e].
 
 Definition fires_pull_ff (f : outcome_facts) : list firing :=
@@ -876,7 +883,7 @@ Definition fires_pull_ff (f : outcome_facts) : list firing :=
            else
              let e := with_pull (with_ra (with_refs (env0 f) (f_head_after f) None (f_head f) false) ra_pull_action)
                                 false false true ([], []) in
-             [mkFiring HN_reference_transaction (ARefTx Committed None (head_update f) true) e;
+             [mkFiring HN_reference_transaction (ARefTx Committed None (head_update f) true (negb (f_detached f))) e;
               mkFiring HN_post_merge (APostMerge false) e]
        | _, _ => []
        end.
